@@ -494,6 +494,20 @@ def _strip_place(e, casts):
             return e
 
 
+def _flat_derefs(e):
+    """Dereferences of references on the way to a field are transparent (`(*x).p` is `(**y).p` for `y = &x`, as auto-deref through
+    `ManuallyDrop` or a helper taking `&self` produces them): a place compared as root + field names."""
+    if isinstance(e, tuple) and e and e[0] == "proj":
+        names = tuple(n for n in e[2] if n != "*")
+        root = _flat_derefs(e[1])
+        if root[0] == "proj":
+            return ("proj", root[1], tuple(root[2]) + names)
+        return ("proj", root, names) if names else root
+    if isinstance(e, tuple) and e and e[0] == "addr":
+        return _flat_derefs(e[1])
+    return e
+
+
 def _dealloc_free_type(F, E, b):
     """The open-coded release `dealloc(p as *mut u8, Layout::for_value(&*p))`, possibly inside the destructor of a private guard
     value (`struct FreeOnDrop { inner, layout }`): judged in every function that drops such a guard, with constructor and
@@ -532,7 +546,7 @@ def _dealloc_free_type(F, E, b):
             le = symx.expr(F, B, t["args"][1])
             if not (le[0] == "call" and le[1] in ("<core::alloc::layout::Layout>::for_value", "<core::alloc::layout::Layout>::for_value_raw") and le[3]):
                 return False, "in %s the layout given to dealloc is %s, not `Layout::for_value` of the block itself" % (hb["key"], symx.show(le))
-            if _strip_place(le[3][0], False) != pe:
+            if _nobb(_flat_derefs(_strip_place(le[3][0], False))) != _nobb(_flat_derefs(pe)):
                 return False, "in %s the layout given to dealloc is computed from %s, which is not the (un-retyped) pointer being freed (%s)" % (hb["key"], symx.show(le[3][0]), symx.show(pe))
             gi = le[6] if len(le) > 6 else ()
             if not gi or not F.is_adt(gi[0], F.inner_path):
